@@ -109,6 +109,16 @@ def render(nbs, fault=None):
 # ------------------------------------------------------------------------------- implementation side
 
 
+def reloads_of(case):
+    """the reloads of a case, in order: dict(cfg=neighbors or None for a missing file, fault=...)"""
+    if 'reloads' in case:
+        return case['reloads']
+    out = [{'cfg': case['new'], 'fault': case.get('fault')}]
+    if case.get('then') is not None:
+        out.append({'cfg': case['then'], 'fault': None})
+    return out
+
+
 class Ids:
     """real objects -> small integers shared by the implementation run and the model terms"""
 
@@ -133,6 +143,20 @@ class Ids:
     def params(self, n):
         # what Neighbor.__eq__ compares and the generator varies
         return self._get(self.param, (int(n.hold_time), bool(n.group_updates), str(n.session.peer_as)))
+
+
+def previous_routes(neighbor):
+    """the `previous` argument Peer._main / Peer.reconfigure give to replace_restart / replace_reload:
+    read from the source of Peer._main so that the emulation follows the code (fail closed)"""
+    import inspect
+    from exabgp.reactor.peer import Peer
+
+    src = inspect.getsource(Peer._main)
+    if 'previous = self.neighbor.replaced_routes()' in src:
+        return neighbor.replaced_routes()
+    if 'previous = self.neighbor.previous.routes if self.neighbor.previous else []' in src:
+        return neighbor.previous.routes if neighbor.previous else []
+    raise RuntimeError('Peer._main: the establishment step is not the one this harness emulates')
 
 
 class Sess:
@@ -249,7 +273,7 @@ class Impl:
         if s.up:
             return
         n = peer.neighbor
-        previous = n.previous.routes if n.previous else []
+        previous = previous_routes(n)
         n.rib.outgoing.replace_restart(previous, n.routes)
         n.previous = None
         peer.fsm.change(FSM.ESTABLISHED)
@@ -390,11 +414,12 @@ class Impl:
                 s.up, s.cur, s.buf, s.table = False, None, [], {}
             elif peer._neighbor is not None and peer.fsm == FSM.ESTABLISHED:
                 # Peer._main, top of the loop
-                previous = peer._neighbor.previous.routes if peer._neighbor.previous else []
+                previous = previous_routes(peer._neighbor)
                 current = peer._neighbor.routes
                 peer.neighbor.rib.outgoing.replace_reload(previous, current)
                 peer._neighbor.previous = None
                 peer._neighbor = None
+        self.step_obs.append(self.observe()['ribs'])
         return ret, outcome
 
     # -- observation
@@ -450,6 +475,18 @@ class Impl:
         return out
 
     # -- a whole case
+    def set_down_states(self):
+        """every session that is not established sits in the FSM state the case names for its address"""
+        from exabgp.bgp.fsm import FSM
+
+        states = self.case.get('fsm', {})
+        for key, peer in self.rig.reactor._peers.items():
+            s = self.sess_of(key)
+            if s.up:
+                continue
+            ip = str(peer.neighbor.session.peer_address).split('/')[0]
+            peer.fsm.change(getattr(FSM, states.get(ip, 'IDLE')))
+
     def run(self):
         c = self.case
         self.write(render(c['old']))
@@ -461,27 +498,31 @@ class Impl:
             first = self.parse_log[0]
             self.reload_returns.append(self.rig.first)
             self.trace.append(('load', first['prefix']))
+            self.step_obs = [self.observe()['ribs']]
             for step in c['pre']:
                 self.do(step)
-            self.before = self.snapshot()
-            sent_before = {k: len(s.sent) for k, s in self.sess.items()}
-            text = None if c['new'] is None else render(c['new'], c.get('fault'))
-            self.ret, self.outcome = self.reload(text)
-            self.after = self.snapshot()
-            self.api_ok = None
-            if self.outcome[0] != 'parsed':
-                # the API keeps working
-                self.api_ok = self.api_probe()
-                if c.get('then') is not None:
-                    self.trace2_start = len(self.trace)
-                    self.ret2, self.outcome2 = self.reload(render(c['then']))
+            self.steps = []
+            for rl in reloads_of(c):
+                self.set_down_states()
+                st = {'before': self.snapshot()}
+                text = None if rl['cfg'] is None else render(rl['cfg'], rl.get('fault'))
+                st['ret'], st['outcome'] = self.reload(text)
+                st['after'] = self.snapshot()
+                st['api_ok'] = None
+                if st['outcome'][0] != 'parsed':
+                    st['api_ok'] = self.api_probe()  # the API keeps working
+                self.steps.append(st)
+            self.ret, self.outcome = self.steps[0]['ret'], self.steps[0]['outcome']
+            self.sent_mark = {k: len(s.sent) for k, s in self.sess.items()}
+            self.up_at_mark = {k: s.up for k, s in self.sess.items()}
+            self.set_down_states()
             for ip in IPS:
                 self.establish(ip)
             for ip in IPS:
                 self.drain(ip)
             self.final = self.observe()
             self.final_stale = [self.ids.nbname(k) for k in self.rig.configuration.neighbor.neighbors]
-            self.sent_after = {k: s.sent[sent_before.get(k, 0):] for k, s in self.sess.items()}
+            self.sent_after = {k: s.sent[self.sent_mark.get(k, 0):] for k, s in self.sess.items()}
         finally:
             self._restore()
             try:
@@ -556,7 +597,7 @@ def coq_trace(trace):
 
 def parse_obs(zs):
     """Model_Reload.observe -> dict comparable with Impl.observe()"""
-    out = {'returns': [], 'neighbors': {}, 'stale': [], 'peers': {}, 'ribs': {}}
+    out = {'returns': [], 'after_each_reload': [], 'neighbors': {}, 'stale': [], 'peers': {}, 'ribs': {}}
     groups = []
     for z in zs:
         if z < 0:
@@ -564,10 +605,15 @@ def parse_obs(zs):
         else:
             groups[-1].append(z)
     rib = None
+    target = out['ribs']
     for g in groups:
         m, body = g[0], g[1:]
-        if m == -1:
-            out['returns'] = [bool(x) for x in body]
+        if m == -11:
+            out['returns'].append(bool(body[0]))
+            out['after_each_reload'].append({})
+            target = out['after_each_reload'][-1]
+        elif m == -2:
+            target = out['ribs']
         elif m == -10:
             out['neighbors'][body[0]] = (body[1], [tuple(body[k:k + 3]) for k in range(2, len(body), 3)])
         elif m == -3:
@@ -575,7 +621,7 @@ def parse_obs(zs):
         elif m == -4:
             out['peers'] = {body[k]: body[k + 1] for k in range(0, len(body), 2)}
         elif m == -5:
-            rib = out['ribs'].setdefault(body[0], {})
+            rib = target.setdefault(body[0], {})
             rib['up'] = bool(body[1])
         elif m == -6:
             rib['seen'] = sorted(tuple(body[k:k + 3]) for k in range(0, len(body), 3))
@@ -592,6 +638,7 @@ def impl_obs(im):
     f = im.final
     return {
         'returns': [bool(x) for x in im.reload_returns],
+        'after_each_reload': im.step_obs,
         'neighbors': {n: (p, [(i, a, h) for i, fam, a, h in rs]) for n, (p, rs) in f['neighbors'].items()},
         'stale': sorted(im.final_stale),
         'peers': dict(f['peers']),
@@ -834,91 +881,135 @@ def key_of_name(name):
     return (m.group(1), int(m.group(2)))
 
 
+def apply_file(tables, cur, new):
+    """text-level effect of one accepted reload on what every peer must hold:
+    the new file, plus what was there on prefixes that neither file names (API routes)"""
+    curmap = {nbkey(nb): nb for nb in cur}
+    out = {}
+    for nb in new:
+        k = nbkey(nb)
+        t = {}
+        if k in curmap:
+            oldp = {r[0] for r in curmap[k]['routes']}
+            newp = {r[0] for r in nb['routes']}
+            t = {p: v for p, v in tables.get(k, {}).items() if p not in oldp and p not in newp}
+        for p, h, a in nb['routes']:
+            t[p] = (h, a)
+        out[k] = t
+    return out
+
+
 def judge(case, im):
-    """-> list of (sig, what).  Independent of the model."""
+    """-> list of (sig, what).  Independent of the model: the reloads are followed at text level."""
     probs = []
     tx = Texts(im)
     names = {v: k for k, v in im.ids.name.items()}
-    broken = case.get('fault') is not None or case['new'] is None
-
-    def peer_tables():
-        out = {}
-        for nid, rib in im.final['ribs'].items():
-            out[key_of_name(names[nid])] = (rib['up'], tx.table(rib['peer']), rib['queued'], rib['withdraws'])
-        return out
-
-    def check_final(old, new, probe, sig, unchanged=False):
-        want = expected_tables(case, old, new, probe)
-        if unchanged:
-            # no reload took effect: exactly what was there, API operations on file prefixes included
-            want = {k: dict(t) for k, t in table_before(case).items()}
-            for t in want.values():
-                if probe:
-                    t['probe'] = True
-        got = peer_tables()
-        cfg_keys = sorted(key_of_name(names[n]) for n in im.final['neighbors'])
-        if cfg_keys != sorted(want):
-            probs.append((sig + ':neighbors', f'configured neighbors {cfg_keys}, the file has {sorted(want)}'))
-            return
-        peers = sorted(key_of_name(names[n]) for n in im.final['peers'])
-        if peers != sorted(want):
-            probs.append((sig + ':peers', f'reactor peers {peers}, the file has {sorted(want)}'))
-            return
-        for k, t in want.items():
-            if k not in got:
-                probs.append((sig + ':no-rib', f'{k} has no RIB'))
-                continue
-            up, table, queued, wds = got[k]
-            if not up or queued or wds:
-                probs.append((sig + ':not-drained', f'{k}: up={up} queued={queued} withdraws={wds}'))
-            elif table != t:
-                probs.append((sig + ':peer-table', f'{k}: peer holds {table}, expected {t} (prefix -> (next hop, attribute set))'))
-        for k in got:
-            if k not in want and got[k][1]:
-                probs.append((sig + ':removed-neighbor-still-served', f'{k} is not configured and its peer holds {got[k][1]}'))
-
-    if im.outcome[0] == 'parsed':
-        if broken:
-            return [('NOTE:broken-file-accepted', f'{case.get("fault")}')]
-        if im.ret is not True:
-            probs.append(('reload:returned-false-on-valid-file', f'reload() returned {im.ret!r}'))
-        check_final(case['old'], case['new'], False, 'reload')
-        return probs
-
-    # a failed reload: nothing may move
-    cls = 'missing-file' if im.outcome[0] == 'nofile' else ('syntax-error' if im.outcome[1] else 'exception')
-    if im.ret is not False:
-        probs.append((f'failed-reload:return-value:{cls}', f'reload() returned {im.ret!r}'))
-    b, a = im.before, im.after
-    if sorted(a['neighbors']) != sorted(b['neighbors']):
-        probs.append((f'failed-reload:neighbors-changed:{cls}',
-                      f'configuration.neighbors had {len(b["neighbors"])} neighbors, has {len(a["neighbors"])} after the failed reload'))
-    elif a['neighbors'] != b['neighbors']:
-        probs.append((f'failed-reload:neighbor-routes-changed:{cls}', 'the routes of a configured neighbor changed'))
-    if a['ribs'] != b['ribs']:
-        diff = []
-        for name in sorted(set(a['ribs']) | set(b['ribs'])):
-            ra, rb = a['ribs'].get(name), b['ribs'].get(name)
-            if ra != rb:
-                if rb is None:
-                    diff.append(f'{key_of_name(name)}: a RIB was created, cached={ra["cached"]} queued={ra["queued"]}')
-                else:
-                    diff.append(f'{key_of_name(name)}: cached {rb["cached"]} -> {ra["cached"]}, queued {rb["queued"]} -> {ra["queued"]}, '
-                                f'withdraws {rb["withdraws"]} -> {ra["withdraws"]}')
-        probs.append((f'failed-reload:rib-changed:{cls}', '; '.join(diff)))
-    if a['peers'] != b['peers'] or a['sessions'] != b['sessions']:
-        probs.append((f'failed-reload:sessions-changed:{cls}', f'{b["peers"]} -> {a["peers"]}'))
-    if a['processes'] != b['processes']:
-        probs.append((f'failed-reload:processes-changed:{cls}', f'{b["processes"]} -> {a["processes"]}'))
-    if not im.api_ok:
-        probs.append((f'failed-reload:api-refuses-announce:{cls}', 'after the failed reload `peer * announce route 10.99.0.0/24 next-hop 192.0.2.9` is refused'))
-    if case.get('then') is not None:
-        if im.ret2 is not True:
-            probs.append((f'reload-after-failed-reload:valid-file-refused:{cls}', f'reload() of a valid file returned {im.ret2!r} after a failed reload'))
+    tables = {k: dict(t) for k, t in table_before(case).items()}
+    cur = case['old']
+    failed_cls = None  # class of the last failed reload
+    accepted = 0
+    reest, chained = set(), set()  # neighbors re-establishing; ... and reloaded again before they came up
+    for rl, st in zip(reloads_of(case), im.steps):
+        broken = rl.get('fault') is not None or rl['cfg'] is None
+        if st['outcome'][0] == 'parsed':
+            if broken:
+                return probs + [('NOTE:broken-file-accepted', f'{rl.get("fault")}')]
+            if st['ret'] is not True:
+                probs.append(('reload:returned-false-on-valid-file', f'reload() returned {st["ret"]!r}'))
+            tables = apply_file(tables, cur, rl['cfg'])
+            curmap = {nbkey(nb): nb for nb in cur}
+            for nb in rl['cfg']:
+                k = nbkey(nb)
+                if k in reest:
+                    chained.add(k)
+                if k in curmap and curmap[k]['hold'] != nb['hold']:
+                    reest.add(k)
+            cur = rl['cfg']
+            accepted += 1
+            continue
+        # a failed reload: nothing may move
+        cls = 'missing-file' if st['outcome'][0] == 'nofile' else ('syntax-error' if st['outcome'][1] else 'exception')
+        if not broken:
+            where = f'reload-after-failed-reload:valid-file-refused:{failed_cls}' if failed_cls else 'reload:valid-file-refused'
+            probs.append((where, f'reload() of a valid file returned {st["ret"]!r}'))
+            return probs
+        failed_cls = cls
+        if st['ret'] is not False:
+            probs.append((f'failed-reload:return-value:{cls}', f'reload() returned {st["ret"]!r}'))
+        b, a = st['before'], st['after']
+        if sorted(a['neighbors']) != sorted(b['neighbors']):
+            probs.append((f'failed-reload:neighbors-changed:{cls}',
+                          f'configuration.neighbors had {len(b["neighbors"])} neighbors, has {len(a["neighbors"])} after the failed reload'))
+        elif a['neighbors'] != b['neighbors']:
+            probs.append((f'failed-reload:neighbor-routes-changed:{cls}', 'the routes of a configured neighbor changed'))
+        if a['ribs'] != b['ribs']:
+            diff = []
+            for name in sorted(set(a['ribs']) | set(b['ribs'])):
+                ra, rb = a['ribs'].get(name), b['ribs'].get(name)
+                if ra != rb:
+                    if rb is None:
+                        diff.append(f'{key_of_name(name)}: a RIB was created, cached={ra["cached"]} queued={ra["queued"]}')
+                    else:
+                        diff.append(f'{key_of_name(name)}: cached {rb["cached"]} -> {ra["cached"]}, queued {rb["queued"]} -> {ra["queued"]}, '
+                                    f'withdraws {rb["withdraws"]} -> {ra["withdraws"]}')
+            probs.append((f'failed-reload:rib-changed:{cls}', '; '.join(diff)))
+        if a['peers'] != b['peers'] or a['sessions'] != b['sessions']:
+            probs.append((f'failed-reload:sessions-changed:{cls}', f'{b["peers"]} -> {a["peers"]}'))
+        if a['processes'] != b['processes']:
+            probs.append((f'failed-reload:processes-changed:{cls}', f'{b["processes"]} -> {a["processes"]}'))
+        if not st['api_ok']:
+            probs.append((f'failed-reload:api-refuses-announce:{cls}', 'after the failed reload `peer * announce route 10.99.0.0/24 next-hop 192.0.2.9` is refused'))
         else:
-            check_final(case['old'], case['then'], bool(im.api_ok), f'reload-after-failed-reload:{cls}')
+            for t in tables.values():
+                t['probe'] = True
+
+    # the end: every session established and drained
+    if failed_cls and accepted:
+        sig = f'reload-after-failed-reload:{failed_cls}'
+    elif failed_cls:
+        sig = f'failed-reload:afterwards:{failed_cls}'
+    elif accepted >= 2:
+        sig = 'reload-sequence'
     else:
-        check_final(case['old'], case['old'], bool(im.api_ok), f'failed-reload:afterwards:{cls}', unchanged=True)
+        sig = 'reload'
+    got = {}
+    for nid, rib in im.final['ribs'].items():
+        got[key_of_name(names[nid])] = (rib['up'], tx.table(rib['peer']), rib['queued'], rib['withdraws'])
+    want = tables
+    cfg_keys = sorted(key_of_name(names[n]) for n in im.final['neighbors'])
+    if cfg_keys != sorted(want):
+        probs.append((sig + ':neighbors', f'configured neighbors {cfg_keys}, the file has {sorted(want)}'))
+        return probs
+    peers = sorted(key_of_name(names[n]) for n in im.final['peers'])
+    if peers != sorted(want):
+        probs.append((sig + ':peers', f'reactor peers {peers}, the file has {sorted(want)}'))
+        return probs
+    down = {nbkey(nb): case.get('fsm', {}).get(nb['ip'], 'IDLE') for nb in cur}
+    for k, t in want.items():
+        if k not in got:
+            probs.append((sig + ':no-rib', f'{k} has no RIB'))
+            continue
+        up, table, queued, wds = got[k]
+        if not up or queued or wds:
+            probs.append((sig + ':not-drained', f'{k}: up={up} queued={queued} withdraws={wds}'))
+        elif table != t:
+            probs.append((sig + ':peer-table' + (':reload-after-parameter-change' if k in chained else ''), f'{k} (FSM state while down: {down.get(k)}): peer holds {table}, expected {t} '
+                          f'(prefix -> (next hop, attribute set)) after {accepted} accepted reload(s)'))
+    for k in got:
+        if k not in want and got[k][1]:
+            probs.append((sig + ':removed-neighbor-still-served', f'{k} is not configured and its peer holds {got[k][1]}'))
+    # a route that no current definition names is never announced once the last reload is done
+    for name, sent in im.sent_after.items():
+        k = key_of_name(name)
+        if k not in want or im.up_at_mark.get(name):
+            continue  # an established session may still be sending a generator started before the reload
+        for u in sent:
+            if u[0] == 3:
+                p = tx.idx.get(u[1], ('?', u[1]))
+                if p not in want[k]:
+                    probs.append((sig + ':announced-removed-route' + (':reload-after-parameter-change' if k in chained else ''), f'{k} (FSM state while down: {down.get(k)}): prefix {p} is announced after the last reload, '
+                                  f'the peer must hold {want[k]}'))
+                    break
     return probs
 
 
@@ -971,12 +1062,62 @@ def process_cases(workdir):
 
 
 def describe(case):
-    d = {'old_configuration': render(case['old']),
-         'new_configuration': None if case['new'] is None else render(case['new'], case.get('fault')),
-         'fault': case.get('fault'), 'before_reload': [list(map(str, s)) for s in case['pre']]}
-    if case.get('then') is not None:
-        d['then_reload'] = render(case['then'])
+    d = {'old_configuration': render(case['old']), 'before_the_reloads': [list(map(str, s)) for s in case['pre']],
+         'fsm_state_of_the_sessions_that_are_down': case.get('fsm', {}), 'reloads': []}
+    for rl in reloads_of(case):
+        d['reloads'].append({'file': None if rl['cfg'] is None else render(rl['cfg'], rl.get('fault')), 'fault': rl.get('fault')})
+    d['then'] = 'every session is established (replace_restart as Peer._main does) and drained'
     return d
+
+
+DOWN_STATES = ['IDLE', 'ACTIVE', 'CONNECT', 'OPENSENT', 'OPENCONFIRM']
+
+
+def gen_sequence(rng, old, n):
+    """n reloads: valid files (each a mutation of the last accepted one) and, one time in four, a failing one"""
+    out, cur = [], old
+    for _ in range(n):
+        x = rng.random()
+        new, _ = mutate(rng, cur)
+        if x < 0.08:
+            out.append({'cfg': None, 'fault': None})
+        elif x < 0.25:
+            faults = all_faults(new)
+            out.append({'cfg': new, 'fault': rng.choice(faults)})
+        else:
+            out.append({'cfg': new, 'fault': None})
+            cur = new
+    return out
+
+
+def scripted_sequences():
+    """small scope, every down state: a route removed by the first reload, other reloads before the session comes up"""
+    A, B, C = (0, 0, 0), (1, 0, 0), (2, 0, 0)
+
+    def nb(routes, hold=180):
+        return [{'ip': IPS[0], 'peer_as': PEER_AS[0], 'hold': hold, 'routes': list(routes)}]
+
+    bad = {'cfg': nb([A, C]), 'fault': ('badvalue', 0, 7)}
+    seqs = [
+        [nb([A])],
+        [nb([A]), nb([A, C])],
+        [nb([A]), nb([A, C]), nb([C])],
+        [nb([A]), bad, nb([A, C])],
+        [bad, nb([A]), nb([A, C])],
+        [nb([A]), {'cfg': None, 'fault': None}, nb([A, C])],
+        [nb([A], 90), nb([A, C], 90)],
+        [nb([A], 90), nb([A, C], 180)],
+        [nb([A]), nb([A, C], 90)],
+        [nb([A, (1, 1, 1)]), nb([A])],
+    ]
+    out = []
+    for state in DOWN_STATES + ['UP']:
+        for seq in seqs:
+            rls = [x if isinstance(x, dict) else {'cfg': x, 'fault': None} for x in seq]
+            pre = [('establish', IPS[0]), ('drain', IPS[0])] if state == 'UP' else []
+            out.append({'old': nb([A, B]), 'new': rls[0]['cfg'], 'pre': pre, 'reloads': rls,
+                        'fsm': {} if state == 'UP' else {IPS[0]: state}})
+    return out
 
 
 def shrink(case, sig, workdir):
@@ -990,6 +1131,19 @@ def shrink(case, sig, workdir):
         return any(s == sig for s, _ in judge(c, im))
 
     cur = case
+    # shorter reload sequences first
+    rls = reloads_of(case)
+    for k in range(len(rls)):
+        if len(reloads_of(cur)) <= 1:
+            break
+        cand = dict(cur)
+        now = reloads_of(cur)
+        if k >= len(now):
+            break
+        cand['reloads'] = now[:k] + now[k + 1:]
+        cand['new'] = cand['reloads'][0]['cfg']
+        if fails(cand):
+            cur = cand
     changed = True
     budget = 60
     while changed and budget > 0:
@@ -1021,7 +1175,8 @@ def check(tier, seed):
     run.assumptions = [
         'adj-rib-out kept (the default), one route per prefix inside a neighbor, all routes ipv4 unicast, no process / template sections in the modelled files',
         'a teardown (reestablish / remove) and the deferred replace_reload of an established peer take effect before the next RIB operation',
-        'theorem C17_success starts from a state with no withdraw owed (no second reload between a re-establishing reload and the establishment)',
+        'theorem C17_success starts from a state with no withdraw owed; histories of several reloads are covered by C17_reload_composes (tree with fix_chain) and by this harness',
+        'the model has one "session down" state: IDLE, ACTIVE, CONNECT, OPENSENT and OPENCONFIRM are required to behave alike (checked on every history)',
         '"still-valid API-announced routes" = API routes on prefixes that neither the old nor the new file of that neighbor names; a neighbor whose name (peer address, AS numbers, router-id) changes is a removed plus a new neighbor',
     ]
     common.standard_build(run, [])
@@ -1039,6 +1194,21 @@ def check(tier, seed):
             mutmix[m] += 1
         cases.append({'old': old, 'new': new, 'pre': gen_pre(rng, old)})
         kinds.append('pair')
+    n_seq = 420 if tier == 'quick' else 9000
+    seqmix = collections.Counter()
+    for _ in range(n_seq):
+        old = gen_nbs(rng)
+        pre = gen_pre(rng, old)
+        if rng.random() < 0.6:
+            pre = [st for st in pre if st[0] == 'api']  # every session down through all the reloads
+        n = rng.choice([1, 2, 2, 3, 3])
+        rls = gen_sequence(rng, old, n)
+        cases.append({'old': old, 'new': rls[0]['cfg'], 'pre': pre, 'reloads': rls})
+        kinds.append('sequence')
+        seqmix[f'{n} reloads, {sum(1 for r in rls if r["fault"] or r["cfg"] is None)} failing'] += 1
+    scripted = scripted_sequences()
+    cases += scripted
+    kinds += ['scripted'] * len(scripted)
     faultmix = collections.Counter()
     for _ in range(n_fault_bases):
         old = gen_nbs(rng)
@@ -1060,6 +1230,13 @@ def check(tier, seed):
         cases.append(c)
         kinds.append('missing')
         faultmix['missing-file'] += 1
+
+    fsmmix = collections.Counter()
+    for c in cases:
+        if 'fsm' not in c:
+            c['fsm'] = {ip: rng.choice(DOWN_STATES) for ip in IPS}
+        for v in c['fsm'].values():
+            fsmmix[v] += 1
 
     impls, crashed = [], []
     for idx, c in enumerate(cases):
@@ -1094,16 +1271,18 @@ def check(tier, seed):
     for i in live:
         for sig, what in judge(cases[i], impls[i]):
             if sig.startswith('NOTE:'):
-                accepted_broken[cases[i]['fault'][0]] += 1
+                accepted_broken[what.split("'")[1] if "'" in what else what] += 1
                 continue
             failing.append((i, sig, what))
     proc = process_cases(wd)
-    n_ok = sum(1 for i in live if impls[i].outcome[0] == 'parsed' and cases[i].get('fault') is None and cases[i]['new'] is not None)
-    n_fail = sum(1 for i in live if impls[i].outcome[0] != 'parsed')
-    succ_bad = [f for f in failing if f[1].startswith('reload:')]
-    fail_bad = [f for f in failing if not f[1].startswith('reload:')]
-    run.obligation(f'property oracle (success): after a parsed reload and a drain every peer table = new file + API routes on prefixes no file names, '
-                   f'removed neighbors gone, on {n_ok} configuration pairs', not succ_bad, f'{len(succ_bad)} failing; first: {succ_bad[0] if succ_bad else ""}'[:2000])
+    n_ok = sum(1 for i in live for rl, st in zip(reloads_of(cases[i]), impls[i].steps)
+               if st['outcome'][0] == 'parsed' and rl.get('fault') is None and rl['cfg'] is not None)
+    n_fail = sum(1 for i in live for st in impls[i].steps if st['outcome'][0] != 'parsed')
+    succ_bad = [f for f in failing if f[1].startswith('reload:') or f[1].startswith('reload-sequence')]
+    fail_bad = [f for f in failing if f not in succ_bad]
+    run.obligation(f'property oracle (success): after the accepted reloads (1, 2 or 3 in a row; sessions up, or down in each of '
+                   f'{DOWN_STATES}), establishment and a drain, every peer table = last accepted file + API routes on prefixes no file names, '
+                   f'removed neighbors gone, nothing removed is announced, on {n_ok} accepted reloads in {len(live)} histories', not succ_bad, f'{len(succ_bad)} failing; first: {succ_bad[0] if succ_bad else ""}'[:2000])
     run.obligation(f'property oracle (failure): neighbors, routes, every RIB, peers, sessions, processes identical before/after, returns False, '
                    f'the API still accepts an announce, a later valid reload is applied, on {n_fail} failed reloads + 4 with a process section',
                    not fail_bad and not proc, f'{len(fail_bad) + len(proc)} failing; first: {(fail_bad[0] if fail_bad else proc[0]) if (fail_bad or proc) else ""}'[:2000])
@@ -1122,7 +1301,8 @@ def check(tier, seed):
         seen.add(sig)
         run.fail_case(sig, what, {'scenario': f'configuration with a process section, then a reload failing by {label}, then the valid file again'})
 
-    nontrivial = {(render(c['old']), None if c['new'] is None else render(c['new'], c.get('fault')), str(c['pre'])) for c in cases}
+    nontrivial = {(render(c['old']), str([(None if r['cfg'] is None else render(r['cfg'], r.get('fault'))) for r in reloads_of(c)]),
+                   str(c['pre']), str(sorted(c['fsm'].items()))) for c in cases}
     run.coverage.update({
         'evaluations': len(cases),
         'distinct_nontrivial': len(nontrivial),
@@ -1130,7 +1310,13 @@ def check(tier, seed):
                 f'1-3 differences among {MUTATIONS}; before the reload each session is up (60%) or down, 0-2 API announce/withdraw per neighbor '
                 f'(also on file prefixes), generators drained / half consumed / not started; plus {n_fault_bases} pairs with EVERY applicable fault '
                 f'{FAULT_KINDS} at EVERY line of EVERY neighbor section of the new file and the missing file; 40% of the failed reloads are followed by a valid reload; '
-                f'non-trivial = distinct (old text, new text, schedule)',
+                f'plus {n_seq} sequences of 1-3 reloads (each a mutation of the last accepted file; one in four fails: fault at a random line or missing file) '
+                f'with every session down (60%) or mixed, plus {len(scripted)} scripted sequences (a route removed by the first reload, 0-2 more reloads, '
+                f'failed ones in between, parameter changes) in every down state and up; every session that is down sits in a random FSM state of '
+                f'{DOWN_STATES} at every reload; Model_Reload has ONE down state: the correspondence and the oracle both require the code to behave alike in all five; '
+                f'non-trivial = distinct (old text, reload texts, schedule, FSM states)',
+        'reload_sequences': dict(seqmix),
+        'fsm_states_of_down_sessions': dict(fsmmix),
         'differences_applied': dict(mutmix),
         'faults_injected': dict(faultmix),
         'parser_outcomes_observed': dict(outcomes),
